@@ -441,3 +441,61 @@ def w_assert( ctx ):
         res.ok( src, src.tree, 'none of the %d asserts of the analysed modules is constantly true' % n )
         res.instances.extend( dict( rule='W-ASSERT', site='(count)', fact='assert #%d' % k, verdict='holds', nontrivial=False ) for k in range( n - 1 ))
     return res
+
+
+@rule( 'W-CLASSSTATE', props=( 'C18', 'C09', 'C13', 'C19' ), floor=3 )
+def w_classstate( ctx ):
+    """the state an instance accumulates is its own: a mutable container ( dict / list / set display, or dict() / list() / set() /
+    deque() ... ) bound at CLASS level and changed through `self.<name>` in a method ( update / append / [ ] = ... ) is one object shared by
+    all instances of the class - a second loader starts with the register map of the first, two connections share a queue - unless
+    __init__ binds a fresh one to the instance.  Classes of the replay, client, proxy and poller modules."""
+    res = Result( 'W-CLASSSTATE' )
+    MUT = ( 'update', 'append', 'extend', 'insert', 'add', 'pop', 'popitem', 'clear', 'setdefault', 'remove', 'appendleft', 'popleft', 'discard' )
+    n = 0
+    for rel in ( 'history/files.py', 'server/enip/client.py', 'server/enip/get_attribute.py', 'remote/plc_modbus.py', 'remote/plc.py', 'server/enip/poll.py' ):
+        if not ctx.model.exists( rel ):
+            continue
+        src = ctx.src( rel )
+        for cd in ast.walk( src.tree ):
+            if not isinstance( cd, ast.ClassDef ):
+                continue
+            n += 1
+            shared = {}
+            for st in cd.body:
+                if isinstance( st, ast.Assign ) and len( st.targets ) == 1 and isinstance( st.targets[0], ast.Name ):
+                    v = st.value
+                    if isinstance( v, ( ast.Dict, ast.List, ast.Set )) or ( isinstance( v, ast.Call ) and ( call_name( v ) or '' ).split( '.' )[-1] in ( 'dict', 'list', 'set', 'deque', 'OrderedDict', 'defaultdict', 'dotdict' )):
+                        shared[st.targets[0].id] = st
+            # ... or bound to the class from inside a method: self.__class__.<name> = {} / type( self ).<name> = {} / <Class>.<name> = {}
+            for f in ast.walk( cd ):
+                if isinstance( f, ast.Assign ) and len( f.targets ) == 1 and isinstance( f.targets[0], ast.Attribute ):
+                    base_ = f.targets[0].value
+                    if dotted( base_ ) in ( 'self.__class__', cd.name, 'cls' ) or pmatch( base_, 'type( self )' ) is not None:
+                        v = f.value
+                        if isinstance( v, ( ast.Dict, ast.List, ast.Set )) or ( isinstance( v, ast.Call ) and ( call_name( v ) or '' ).split( '.' )[-1] in ( 'dict', 'list', 'set', 'deque', 'OrderedDict', 'defaultdict', 'dotdict' )):
+                            shared.setdefault( f.targets[0].attr, f )
+            if not shared:
+                res.ok( src, cd, 'class %s: no mutable container bound at class level' % cd.name, nontrivial=False )
+                continue
+            own = set()			# bound per instance somewhere ( __init__ or any method: self.<name> = ... )
+            for f in ast.walk( cd ):
+                if isinstance( f, ast.Assign ):
+                    for t in f.targets:
+                        for x in ast.walk( t ):
+                            if isinstance( x, ast.Attribute ) and isinstance( x.ctx, ast.Store ) and dotted( x.value ) == 'self':
+                                own.add( x.attr )
+            for name, st in sorted( shared.items()):
+                if name in own:
+                    res.ok( src, st, 'class %s: %s is re-bound per instance' % ( cd.name, name ))
+                    continue
+                muts = [ c for c in ast.walk( cd ) if ( isinstance( c, ast.Call ) and isinstance( c.func, ast.Attribute ) and c.func.attr in MUT and dotted( c.func.value ) == 'self.' + name )
+                         or ( isinstance( c, ast.Subscript ) and isinstance( c.ctx, ( ast.Store, ast.Del )) and dotted( c.value ) == 'self.' + name )
+                         or ( isinstance( c, ast.AugAssign ) and dotted( c.target ) == 'self.' + name ) ]
+                if muts:
+                    res.bad( src, muts[0], 'class %s: %s is bound once at class level ( %s ) and changed through self.%s' % ( cd.name, name, norm_text( ast.unparse( st ))[:40], name ),
+                             'every instance changes the SAME container: what one replay / connection / poller has accumulated is what the next one starts with ( e.g. a second replay begins with the end-of-history register map of the first )', func=cd.name )
+                else:
+                    res.ok( src, st, 'class %s: %s is a class-level table that instances only read' % ( cd.name, name ))
+    if n < 3:
+        raise AnalysisError( 'W-CLASSSTATE: classes not found' )
+    return res
